@@ -37,9 +37,12 @@ def plan(seed, subbatch):
     else:
         faults, burst, p_empty, _ = planlib.swarm_faults(cfg, base_s, tf_s, halt_buckets=(5, 40))
     start = world.pick_start(cfg, base_s, tf_s)
+    regimes = None
+    if subbatch == "faulty" and cfg.random() < 0.35:
+        regimes = world.REGIMES_NORMAL + cfg.sample(world.REGIMES_DEGENERATE, 2)
     pre, ops, fired, rows = planlib.stream_and_schedule(
         seed, subbatch, n, base_s, start, faults, burst, p_empty,
-        max_span_s=(800 * tf_s if tf else None))
+        max_span_s=(800 * tf_s if tf else None), regimes=regimes, regime_len=(1, 15))
     every = 1 if len(ops) <= 12 else cfg.choice((5, 10))
     out = [{"op": "new", "preload": pre, "calculate": cfg.random() < 0.5}]
     for i, op in enumerate(ops):
